@@ -223,6 +223,7 @@ def recipients(ctx):
 @PROP.obligation('C07.explicit-inputs', canaries=[
     mut.replace_expr(W, 'Wallet.transaction_create', "int.from_bytes(output_n, 'big')", "int.from_bytes(output_n, 'little')", 'outpoint index of an Input object byte-swapped'),
     mut.replace_stmt(W, 'Wallet.transaction_create', 'value = inp_utxo.value', 'if not value:\n    value = inp_utxo.value', 'caller-supplied amount trusted over the stored output'),
+    mut.replace_expr(W, 'Wallet.transaction_create', 'self.session.query(DbKey.id).filter(DbKey.wallet_id == self.wallet_id, DbKey.address == address)', 'self.session.query(DbKey.id).filter_by(address=address)', 'key of an explicit input looked up across all wallets of the database'),
 ])
 def explicit_inputs(ctx):
     """Explicit inputs: the outpoint index of an Input object (stored 4 bytes big-endian) is converted with 'big'; the value added to
@@ -242,6 +243,20 @@ def explicit_inputs(ctx):
         ctx.require('DbTransaction.wallet_id == self.wallet_id' in x.filters, q, 'explicit-input lookup is not scoped to this wallet', x.node)
         ctx.require(any(f.startswith('DbTransactionOutput.output_n ==') for f in x.filters) and any(f.startswith('DbTransaction.txid ==') for f in x.filters), q,
                     'explicit-input lookup does not match on (txid, output_n)', x.node)
+    # every look-up of transaction_create / select_inputs that can hand back a key or an output (DbKey, DbTransaction*) is scoped to this wallet
+    nq = 0
+    for fq in (q, W + ':Wallet.select_inputs'):
+        for x in queries_in(ctx.repo.func(fq)):
+            if not any(mm.split('.')[0] in ('DbKey', 'DbTransaction', 'DbTransactionInput', 'DbTransactionOutput') for mm in x.models):
+                continue
+            nq += 1
+            preds = list(x.filters) + ['%s=%s' % (k, v) for k, v in x.filter_by.items()]
+            scoped = any(p.replace(' ', '') in ('DbTransaction.wallet_id==self.wallet_id', 'DbKey.wallet_id==self.wallet_id', 'wallet_id=self.wallet_id') for p in preds)
+            if not scoped:
+                ctx.violate(fq, 'the look-up over %s with %s is not restricted to this wallet' % (', '.join(x.models), preds or 'no predicate'), x.node,
+                            'keys / outputs of ANOTHER wallet in the same database are found: the wallet signs with a foreign private key and spends an output that is not its own')
+    ctx.saw('%d key / output look-ups of transaction_create and select_inputs are scoped to this wallet' % nq)
+    ctx.floor(nq, 3, 'wallet look-ups')
     adds = [c for c in ast.walk(fn) if isinstance(c, ast.Call) and unparse(c.func) == 'transaction.add_input' and unparse(c.args[0]) == 'prev_txid']
     for c in adds:
         kw = {k.arg: unparse(k.value) for k in c.keywords}
@@ -317,6 +332,7 @@ def sweep(ctx):
     mut.drop_stmt('transactions', 'Transaction.bumpfee', 'if remaining_fee:', 'fee bump does not fail when change cannot cover it', nth=0) if False else
     mut.replace_stmt('transactions', 'Transaction.bumpfee', 'raise TransactionError(\'Not enough unspent outputs to bump transaction fee\')', 'pass', 'fee bump does not fail when change cannot cover it'),
     mut.replace_expr(W, 'WalletTransaction.add_input_from_wallet', 'i.output_n_int', 'i.output_n', 'already used outpoints not recognised (bytes vs int)'),
+    mut.replace_expr(W, 'WalletTransaction.add_input_from_wallet', 'self.hdwallet.utxos(self.account_id, network=self.network.name, min_confirms=min_confirms, key_id=key_id)', 'self.hdwallet.utxos(self.account_id, min_confirms=min_confirms, key_id=key_id)', 'fee bump takes its extra input from the default network'),
 ])
 def bump(ctx):
     """Transaction.bumpfee reduces / removes only outputs flagged change and raises when they cannot cover the extra fee;
@@ -347,6 +363,18 @@ def bump(ctx):
                 'used outpoints are collected as `%s`; the UTXO list carries (txid hex string, integer output_n)' % norm(cur[0].value), cur[0],
                 'the exclusion never matches: an outpoint already in the transaction is added a second time')
     ctx.require("(u['txid'], u['output_n']) not in current_inputs" in norm(flt[0].value), q, 'candidate UTXOs are not filtered against the used outpoints', flt[0])
+    # the extra input comes from the unspent outputs of the transaction's OWN account and network
+    ucalls = [c for c in ast.walk(fn) if isinstance(c, ast.Call) and norm(c.func) == 'self.hdwallet.utxos']
+    if not ucalls:
+        ctx.undecided('add_input_from_wallet: the call that lists the unspent outputs of the wallet was not found')
+    up = [a.arg for a in ctx.repo.func(W + ':Wallet.utxos').args.args][1:]
+    for c in ucalls:
+        bound = {up[i]: norm(a) for i, a in enumerate(c.args) if i < len(up)}
+        bound.update({k.arg: norm(k.value) for k in c.keywords if k.arg})
+        ctx.saw('candidates: self.hdwallet.utxos(%s)' % ', '.join('%s=%s' % kv for kv in sorted(bound.items())))
+        ctx.require(bound.get('network') == 'self.network.name', q, 'the unspent outputs offered for a fee bump are listed with network=%s, not the network of the transaction' % bound.get('network', 'the wallet default'), c,
+                    'a litecoin transaction of a multi-network wallet receives a bitcoin outpoint as input: not an unspent output of the wallet on that chain')
+        ctx.require(bound.get('account_id') == 'self.account_id', q, 'the unspent outputs offered for a fee bump are listed with account_id=%s, not the account of the transaction' % bound.get('account_id', 'the wallet default'), c)
 
 
 @PROP.obligation('C07.defaults')
